@@ -29,9 +29,12 @@ import (
 const (
 	Code    = 0x10000
 	Data    = 0x20000
-	DataImg = 32 // bytes of the data window that belong to the image ...
-	DataOff = 16 // ... starting this far into the window: unmapped | image | unmapped
-	DataWin = 64
+	DataImg = 36 // bytes of the data window that belong to the image, as two blocks ...
+	DataOff = 12 // ... the first starting this far into the window; layout of the window:
+	// unmapped [0,12) | image [12,28) | unmapped [28,32) | image [32,52) | unmapped [52,64)
+	DataCut  = 16 // length of the first image block
+	DataHole = 4  // unmapped bytes between the two image blocks
+	DataWin  = 64
 )
 
 var cfg = refrv.Cfg{XLEN: 64, M: true, A: true}
@@ -442,7 +445,7 @@ func RunCase(c *mon.Case, prop string) {
 		fail("C03.build.error", nil, "valid program rejected: %v", err)
 		return
 	}
-	imgMem, err := elf.VerifNewMemory([]model.Addr{Code, Data + DataOff}, [][]byte{code, dataImg})
+	imgMem, err := elf.VerifNewMemory([]model.Addr{Code, Data + DataOff, Data + DataOff + DataCut + DataHole}, [][]byte{code, dataImg[:DataCut], dataImg[DataCut:]})
 	if err != nil {
 		c.Fail(prop+".harness", nil, "image memory: %v", err)
 		return
@@ -465,7 +468,11 @@ func RunCase(c *mon.Case, prop string) {
 		image[Code+uint64(i)] = b
 	}
 	for i, b := range dataImg {
-		image[Data+DataOff+uint64(i)] = b
+		a := Data + DataOff + uint64(i)
+		if i >= DataCut {
+			a += DataHole
+		}
+		image[a] = b
 	}
 	refMem := refrv.NewMapMem(func(a uint64) byte {
 		if b, ok := image[a]; ok {
